@@ -65,6 +65,9 @@ func main() {
 			fmt.Fprintln(os.Stderr, "unknown property", *prop)
 			os.Exit(2)
 		}
+		if *work != "" {
+			os.Setenv("VERIF_KEYDIR", *work+"/keys")
+		}
 		c := &Ctx{Tier: *tier, Seed: *seed, Rng: rand.New(rand.NewSource(*seed)), Replay: *replay, Work: *work}
 		drv, err := StartDriver(*driver, func(kind string, args []string) string { return answerOracle(c, kind, args) })
 		if err != nil {
